@@ -9,6 +9,7 @@ import Proofs.ChainSys
 import Proofs.PCQueueProgress
 import Proofs.PCQueueFail
 import Proofs.ChainPoolSysLive
+import Proofs.ChainSysLive
 /-!
 # C17 — Queues and chains deliver each item exactly once, in order, and terminate
 
@@ -723,6 +724,67 @@ theorem pool_steplevel_terminates {w : Nat} {reqs : List Nat} (hw : 0 < w) (hcap
     obtain ⟨_, _, _, _, _, h6⟩ := pool_exactly_once hw hcap hok'.2
     obtain ⟨e1, e2, _⟩ := h6 hdone
     exact ⟨hdone, e1, e2⟩
+
+/-- **Chain on step-level queues: no deadlock.**  In every reachable state (arbitrary schedule, arbitrary
+interrupts), unless the denoted `Chain` state says the user thread and all stages have finished, some thread can
+take a step. -/
+theorem chain_steplevel_no_deadlock {b m : Nat} {data : List Nat} (hb : 0 < b) (hm : 1 ≤ m) {c : CState CLoc}
+    (hr : CReach (chainProg (Chain.init b m data)) (cinit (chainProg (Chain.init b m data)) (chainLoc0 b)) c)
+    (hnd : (toChain (Chain.init b m data) (Sys.abs c)).main ≠ .finished
+      ∨ ∃ i, i ≤ m ∧ ((toChain (Chain.init b m data) (Sys.abs c)).st i).pc ≠ .finished) :
+    ∃ t, cstep (chainProg (Chain.init b m data)) c t ≠ none := by
+  have hcap : ∀ q, 0 < (chainProg (Chain.init b m data)).cap q := fun _ => hb
+  obtain ⟨h, ha⟩ := creach_refines hcap hr
+  exact chain_no_deadlock_of hb hm h (modeLt_reach hr)
+    (chain_areach (b := b) (m := m) (data := data) (tr := (Chain.init b m data).tr) ha) hnd
+
+/-- **Chain on step-level queues: termination.**  From every reachable state `c`, for every run `ls` (steps and
+EINTR interrupts in any order) ending in `c'`: (1) the number of steps is at most `cmeasure c`; (2) an
+interrupt-fair run (at most `E` consecutive EINTR) has length at most `cmeasure c · (E+1) + E`; (3) if no thread can
+step in `c'` then in the denoted `Chain` state `Chain::Wait` has returned and all stages have finished, so the final
+clauses of `chain_ring` apply (poison consumed by `Wait`, source output = data ++ [poison], everything handed over). -/
+theorem chain_steplevel_terminates {b m : Nat} {data : List Nat} (hb : 0 < b) (hm : 1 ≤ m) {c : CState CLoc}
+    (hr : CReach (chainProg (Chain.init b m data)) (cinit (chainProg (Chain.init b m data)) (chainLoc0 b)) c)
+    (ls : List Label) (c' : CState CLoc) (hrun : crun (chainProg (Chain.init b m data)) c ls = some c') (E : Nat) :
+    let μ := cmeasure (chainProg (Chain.init b m data))
+      (fun a => chainMeasure b m data (toChain (Chain.init b m data) a))
+    countSteps ls + μ c' ≤ μ c
+    ∧ (InterruptFair E 0 ls → ls.length ≤ μ c * (E + 1) + E)
+    ∧ ((∀ t, cstep (chainProg (Chain.init b m data)) c' t = none) →
+        let x := toChain (Chain.init b m data) (Sys.abs c')
+        x.main = .finished ∧ (∀ i, i ≤ m → (x.st i).pc = .finished) ∧ Item.poison ∈ x.drained
+        ∧ (x.st 0).out = data.map Item.val ++ [Item.poison]) := by
+  intro μ
+  have hcap : ∀ q, 0 < (chainProg (Chain.init b m data)).cap q := fun _ => hb
+  obtain ⟨h, ha⟩ := creach_refines hcap hr
+  have hok : ChainOK b m data (Sys.abs c) :=
+    chain_areach (b := b) (m := m) (data := data) (tr := (Chain.init b m data).tr) ha
+  obtain ⟨h', hok', hle⟩ := crun_bounded (P := chainProg (Chain.init b m data))
+    (amu := fun a => chainMeasure b m data (toChain (Chain.init b m data) a))
+    (ChainOK b m data) (fun _ _ _ => chainOK_step) (fun _ _ _ => chainOK_dec hb hm) ls c c' h hok hrun
+  have hle' : countSteps ls + μ c' ≤ μ c := hle
+  refine ⟨hle', fun hf => ?_, fun hmax => ?_⟩
+  · have := fair_length E ls 0 (Nat.zero_le _) hf
+    have h1 : countSteps ls ≤ μ c := by omega
+    have : countSteps ls * (E + 1) ≤ μ c * (E + 1) := Nat.mul_le_mul_right _ h1
+    omega
+  · intro x
+    have hml := modeLt_crun ls c c' (modeLt_reach hr) hrun
+    have hfin : x.main = .finished ∧ ∀ i, i ≤ m → (x.st i).pc = .finished := by
+      apply Classical.byContradiction
+      intro hno
+      have hnd : x.main ≠ .finished ∨ ∃ i, i ≤ m ∧ (x.st i).pc ≠ .finished := by
+        by_cases e : x.main = .finished
+        · right
+          apply Classical.byContradiction
+          intro hne
+          exact hno ⟨e, fun i hi => Classical.byContradiction fun e2 => hne ⟨i, hi, e2⟩⟩
+        · exact Or.inl e
+      obtain ⟨t, ht⟩ := chain_no_deadlock_of hb hm h' hml hok' hnd
+      exact ht (hmax t)
+    obtain ⟨_, _, _, _, _, _, _, hend⟩ := chain_ring hb hm hok'.2
+    obtain ⟨_, hp, hsrc, _⟩ := hend hfin.1
+    exact ⟨hfin.1, hfin.2, hp, hsrc⟩
 
 end liveness
 
